@@ -631,9 +631,10 @@ func (p *OAuthProxy) SignInPage(rw http.ResponseWriter, req *http.Request, code 
 	prepareNoCache(rw)
 	err := p.ClearSessionCookie(rw, req)
 	if err != nil {
+		// The cookie itself has been expired at this point. Not being able to
+		// remove a stored session (or having no valid ticket to remove one with)
+		// must not turn the sign in page into an error page.
 		logger.Printf("Error clearing session cookie: %v", err)
-		p.ErrorPage(rw, req, http.StatusInternalServerError, err.Error())
-		return
 	}
 	rw.WriteHeader(code)
 
